@@ -367,4 +367,93 @@ theorem expected_le_run {w rest : List Char} (h : WordRun w rest) :
   · exact wo _ ⟨wo_digit, wo_radix, wo_hexUs⟩
   · exact wo _ wo_word
 
+/-! ### Literals -/
+
+def mkLit (l : String) : Pat := ⟨litRegex l.toList, some ("\"" ++ l ++ "\"")⟩
+
+theorem tokTable_pats : tokTable.pats = (punctLiterals ++ keywords).map mkLit ++ expectedRegexes := by
+  simp only [Table.pats, tokTable, tokLiterals_eq, tokRegexes_eq]
+  rfl
+
+theorem punct_heads : punctLiterals.all (fun l => match l.toList with
+    | q :: _ => !isWordChar q | [] => false) = true := by decide
+
+theorem keywords_words : keywords.all (fun l => l.toList.all isWordChar) = true := by decide
+
+theorem punct_fail {w rest : List Char} (h : WordRun w rest) :
+    ∀ l ∈ punctLiterals, matchLen (litRegex l.toList) (w ++ rest) = .fail := by
+  intro l hl
+  have := List.all_eq_true.mp punct_heads l hl
+  obtain ⟨x, t, rfl, hx⟩ := h.cons
+  rw [matchLen_litRegex]
+  cases hq : l.toList with
+  | nil => rw [hq] at this; cases this
+  | cons q ls =>
+    rw [hq] at this
+    simp only [Bool.not_eq_true'] at this
+    have : (q == x) = false := by
+      simp only [beq_eq_false_iff_ne, ne_eq]
+      intro hh; subst hh; rw [hx] at this; cases this
+    simp [List.isPrefixOf, this]
+
+theorem all_le_run {w rest : List Char} (h : WordRun w rest) :
+    ∀ p ∈ tokTable.pats, ∀ m, matchLen p.re (w ++ rest) = .ok m → m ≤ w.length := by
+  intro p hp m hm
+  rw [tokTable_pats, List.mem_append, List.mem_map] at hp
+  rcases hp with ⟨l, hl, rfl⟩ | hp
+  · rw [List.mem_append] at hl
+    rcases hl with hl | hl
+    · simp only [mkLit] at hm
+      rw [punct_fail h l hl] at hm; cases hm
+    · have := List.all_eq_true.mp keywords_words l hl
+      exact matchLen_le_run (wordOnly_litRegex _ this) h hm
+  · exact expected_le_run h p hp m hm
+
+theorem badWord_full {w rest : List Char} (h : WordRun w rest) :
+    matchLen reBadWord (w ++ rest) = .ok w.length := by
+  have hs : span cWord (w ++ rest) = w.length := by
+    rw [span_append_full]
+    · have := h.word
+      rw [List.all_eq_true] at this ⊢
+      intro x hx; rw [cWord_mem]; exact this x hx
+    · intro x hx; rw [cWord_mem]; exact h.stop x hx
+  have hpos : 1 ≤ w.length := by
+    cases w with
+    | nil => exact absurd rfl h.ne
+    | cons _ _ => simp
+  rw [matchLen_eq, reBadWord, plus, plus_end, hs]
+  simp [hpos]
+
+theorem badWord_mem : (⟨reBadWord, some "BadWord"⟩ : Pat) ∈ tokTable.pats := by
+  rw [tokTable_pats]; simp [expectedRegexes]
+
+/-- At the start of a maximal word run the chosen token is exactly the run. -/
+theorem word_run_best {w rest : List Char} (h : WordRun w rest) :
+    ∃ sy, bestMatch tokTable.pats (w ++ rest) 0 none = some (w.length, sy) ∧
+      IsBest tokTable.pats (w ++ rest) w.length sy := by
+  cases hb : bestMatch tokTable.pats (w ++ rest) 0 none with
+  | none => exact absurd hb (bestMatch_ne_none _ _ _ _)
+  | some r =>
+    obtain ⟨n, sy⟩ := r
+    have hpos : 1 ≤ w.length := by
+      cases w with
+      | nil => exact absurd rfl h.ne
+      | cons _ _ => simp
+    rcases bestMatch_spec _ _ _ _ _ _ hb with ⟨h1, _, h3⟩ | ⟨_, hbest⟩
+    · have := h3 _ badWord_mem _ (badWord_full h)
+      omega
+    · have hbest' := hbest
+      obtain ⟨pre, p, post, hp, hm, hs, hpre, hpost⟩ := hbest
+      have hle : n ≤ w.length := all_le_run h p (by rw [hp]; simp) n hm
+      have hge : w.length ≤ n := by
+        have hmem := badWord_mem
+        rw [hp, List.mem_append, List.mem_cons] at hmem
+        rcases hmem with hmem | hmem | hmem
+        · have := hpre _ hmem _ (badWord_full h); omega
+        · rw [← hmem] at hm; simp only at hm; rw [badWord_full h] at hm; cases hm; omega
+        · exact hpost _ hmem _ (badWord_full h)
+      have : n = w.length := by omega
+      subst this
+      exact ⟨sy, rfl, hbest'⟩
+
 end Emboss.Tok
